@@ -16,6 +16,7 @@ Wrap(m, t) == N(m, "", <<t>>)
 Modes == {"auto", "fill", "match", "group"}
 ST == N("stop", "", <<>>)
 SQ == N("starq", "", <<>>)
+CL == N("call", "", <<>>)      \* a plain callable: called in AUTO / FILL positions, a literal only for the argument interpreter
 LazyIn(m, a) == N("pipe", "", <<N(m, "", <<N("iter", "", <<a>>)>>), N("consume", "", <<>>)>>)
 
 \* trees by constructor choice; W(d): a "wrapped thing" of depth <= d
@@ -42,6 +43,7 @@ WellModed(t, mode) ==
   /\ (t.k \in {"tup", "dict"} => mode \notin {"MATCH", "GROUP"})   \* there they are patterns / accumulators
   /\ (t.k = "mdict" => mode = "MATCH" /\ NoDict(t.c[1]) /\ NoGroup(t.c[1]))   \* key result hashable, key target a string
   /\ (t.k = "stop" => FALSE)
+  /\ (t.k = "call" => mode \in {"AUTO", "FILL"})         \* (a predicate under Match, an aggregator under Group)
   /\ (t.k = "consume" => mode \in {"AUTO", "FILL"})      \* `list` is a callable there (a type pattern under Match)
   /\ \A i \in 1..Len(t.c) :
         \/ (t.k = "group" /\ t.c[i].k = "stop")          \* STOP directly under Group ends its iteration
@@ -72,6 +74,17 @@ Pick ==
      \/ \E a \in Trees(SecondDepth), m \in Modes :
           \/ tree' = N("pipe", "", <<SQ, a>>) \/ tree' = N("pipe", "", <<P, SQ, a>>)
           \/ tree' = Wrap(m, N("pipe", "", <<SQ, a>>)) \/ tree' = N("tup", "", <<SQ, a>>)
+     \* plain callables and plain containers holding them, standing directly as the step after a wrapper / after
+     \* the wildcard step whose argument spec failed: they are interpreted in the mode of the position (called),
+     \* not by whatever interpreter the previous step used last
+     \/ \E a \in Top, kk \in {"pipe", "tup"} :
+          \/ tree' = N(kk, "", <<a, CL>>) \/ tree' = N(kk, "", <<a, N("dict", "", <<CL, P>>)>>)
+          \/ tree' = N("dict", "", <<CL, a>>)
+     \/ \E m \in {"auto", "fill"}, kk \in {"pipe", "tup"}, b \in {CL, N("dict", "", <<CL, P>>), N("dict", "", <<P, CL>>), N("tup", "", <<CL, P>>)} :
+          \/ tree' = N(kk, "", <<SQ, b>>) \/ tree' = N(kk, "", <<CL, SQ, b>>) \/ tree' = N(kk, "", <<SQ, P, b>>)
+          \/ tree' = Wrap(m, N("pipe", "", <<SQ, b>>)) \/ tree' = N("pipe", "", <<Wrap(m, SQ), b>>)
+          \/ tree' = N("pipe", "", <<P, N(kk, "", <<SQ, b>>)>>)
+          \/ tree' = N("switch", "", <<SQ, b>>) \/ tree' = N("pipe", "", <<SQ, N("coal", "", <<b>>)>>)
   /\ WellModed(tree', "AUTO")
   /\ LET r == Start(tree', <<>>, <<>>) IN
        run' = [log |-> r.st.log, acts |-> r.st.acts, out |-> r.out,
